@@ -173,7 +173,14 @@ func (c *Ctx) Report(f Finding) {
 		c.known[id]++
 		return
 	}
-	if len(c.findings) < 50 {
+	// separate caps, so that a stream of correspondence disagreements never crowds out a concrete violation
+	n := 0
+	for i := range c.findings {
+		if (c.findings[i].Class == "violation") == (f.Class == "violation") {
+			n++
+		}
+	}
+	if n < 50 {
 		c.findings = append(c.findings, f)
 	}
 }
